@@ -1,10 +1,35 @@
 (* C04 — Commit history: destination sequence numbers stay contiguous; no stale sends.
-   Theorems only; proofs in Proofs/CommitSysP.v, CommitSysConsP.v, CommitSysSMP.v (which build on the C01, C02, C03
-   developments: CommitConsensusP.v, CommitMerkleP.v, CommitSM.v). *)
+   Theorems only; proofs in Proofs/CommitSysP.v, CommitSysConsP.v, CommitSysSMP.v, CommitLiveP.v (which build on the
+   C01, C02, C03 developments: CommitConsensusP.v, CommitMerkleP.v, CommitSMP.v).
+
+   Vocabulary of the liveness part (8.-11.; Model/CommitLive.v, Proofs/CommitLiveP.v):
+     round                         = (query of the leader, validated attributed observations) of one OCR round;
+     sys_step / sys_run            = getOutcome = consensus (C01 model) then state machine (C03 model), one round /
+                                     folded over a list of rounds from a previous outcome; cfg_of = how the RMN remote
+                                     config is taken from the consensus (the correspondence runs with fun _ => empty);
+     eff_count max n prev rounds   = number of rounds that are not RMN-retry rounds (C03: is_retry = building state
+                                     and the query asks for a retry; such a round reproduces the previous outcome);
+     same_view get aos k f v       = at least 2f+1 distinct oracles report exactly (k, v) in field [get], and all
+                                     oracles reporting another value for k lie in a set of at most f oracles;
+     round_live .. prev r          = what round r offers, by the state prev puts the processor in:
+                                       selecting: validated observations, uint64 on-ramp numbers, the DON's same view
+                                                  (at 2F+1) of f for the destination and for k, a same view (off, on) of
+                                                  k's off-ramp next (among the destination readers, at f_dest) / on-ramp
+                                                  latest (among the readers of k, at f_k) with off <= on, and the
+                                                  interval [off, min(on, off+n-1)] is [readable];
+                                       building : nothing if it is an RMN-retry round; else validated observations, the
+                                                  f views, and for every READABLE interval selected for k a same view of
+                                                  its root (chain, on-ramp address, interval, root) — and the RMN
+                                                  bundle of the query, if there is one, is well formed and covers it;
+                                       waiting  : nothing (not even consensus);
+     hist_all .. P prev rounds     = P holds of every round, each taken with the outcome that precedes it;
+     readable s e                  = any predicate: "the honest quorum can read chain k over [s,e]" (chains stay
+                                     readable); it only links what selecting rounds promise to what building rounds owe. *)
 Require Import Verif.Model.Base Verif.Model.Consensus Verif.Model.SeqRange Verif.Model.CommitMerkle
                Verif.Model.CommitConsensus Verif.Proofs.CommitConsensusP
-               Verif.Model.CommitSys Verif.Proofs.CommitSysP Verif.Proofs.CommitSysConsP.
-Require Verif.Model.CommitSM Verif.Proofs.CommitSysSMP.
+               Verif.Model.CommitSys Verif.Proofs.CommitSysP Verif.Proofs.CommitSysConsP
+               Verif.Model.CommitLive Verif.Proofs.CommitLiveP.
+Require Verif.Model.CommitSM Verif.Proofs.CommitSMP Verif.Proofs.CommitSysSMP.
 
 (* 1. The pre-transmission re-check: for EVERY report and EVERY state of the destination at that moment, an honest
       oracle's state check passes only if no chain occurs twice and every interval begins exactly at the
@@ -76,13 +101,12 @@ Theorem C04_report_roots_are_agreed : forall max n prev q c r,
 Proof. exact CommitSysSMP.get_outcome_roots_agreed. Qed.
 Print Assumptions C04_report_roots_are_agreed.
 
-(* 7. Liveness, PARTIAL (round level only). Once the machine is in the selecting state — which by C03_recovery happens
-      within max-checks+2 non-retry rounds from ANY previous outcome — two rounds with consensus produce a report
-      covering the pending messages of chain k: the first selects [off, min(on, off+n-1)], the second (not an RMN
-      retry, RMN disabled) generates a report containing the agreed root of k. What is NOT proved: that consensus is
-      reached in those rounds; that needs honest readers to return the same (off-ramp next, on-ramp latest) view
-      within a round (2f+1 agreement on an unconfirmed on-ramp number can otherwise fail indefinitely) — exercised by
-      the DON-simulator histories of the harness. *)
+(* 7. Liveness, the round-level step (kept; superseded by 8.-10., which supply what it left open). Once the machine is
+      in the selecting state, two rounds WITH GIVEN consensus values c1, c2 produce a report covering the pending
+      messages of chain k: the first selects [off, min(on, off+n-1)], the second (not an RMN retry, RMN disabled)
+      generates a report containing the agreed root of k. That consensus is reached from a same-view honest quorum is
+      8.; the composition with C03_recovery over whole histories from any previous outcome is 9.; that the reported
+      root is the true root is 10. *)
 Theorem C04_liveness_round_partial : forall max n prev q1 q2 c1 c2 k off on r,
   CommitSM.next_state (CommitSM.o_type prev) = CommitSM.Selecting ->
   NoDup (map fst (CommitSM.c_off c1)) -> (forall k m, alookup k (CommitSM.c_on c1) = Some m -> u64 m) -> (1 <= n)%N ->
@@ -94,3 +118,134 @@ Theorem C04_liveness_round_partial : forall max n prev q1 q2 c1 c2 k off on r,
   CommitSM.o_type o2 = CommitSM.T_generated /\ In r (CommitSM.o_roots o2).
 Proof. exact CommitSysSMP.select_then_build_reports. Qed.
 Print Assumptions C04_liveness_round_partial.
+
+(* 8. From a same-view honest quorum to consensus (over the C01 model). For every F, role map and validated
+      attributed observation list with distinct oracles: if the DON has a same view (2F+1 reporters, at most F
+      dissenters) of f for the destination and of f for chain k, the consensus computation succeeds and adopts f for
+      k; and in each per-chain field — merkle root, on-ramp latest, off-ramp next — a same view v of k (2f+1 distinct
+      reporters of exactly v, at most f oracles reporting anything else for k) is THE agreed value of k, f being the
+      f of the chain the data is read from: f_k for roots and on-ramp numbers, f_dest for off-ramp numbers (as
+      repaired by fixes/F26.patch; C01_per_chain).
+      (By C01_designated the reporters are designated readers; a value other than v has at most f < 2f+1 reporters.) *)
+Theorem C04_honest_quorum_consensus : forall retry roles known dest aos,
+  valid_input retry roles known dest aos ->
+  forall F fd k f,
+  (0 <= F < 2^63)%Z -> (f < 2^63)%Z -> (fd < 2^63)%Z ->
+  same_view fchain_kv aos dest F fd -> same_view fchain_kv aos k F f ->
+  exists c, get_consensus F dest aos = Ok c /\
+    alookup dest (c_fchain c) = Some fd /\ alookup k (c_fchain c) = Some f /\
+    (forall v, same_view roots_kv aos k f v -> alookup k (c_roots c) = Some v) /\
+    (forall v, same_view onramp_kv aos k f v -> alookup k (c_onramp c) = Some v) /\
+    (forall v, same_view offramp_kv aos k fd v -> alookup k (c_offramp c) = Some v).
+Proof. exact honest_quorum_consensus. Qed.
+Print Assumptions C04_honest_quorum_consensus.
+
+(* 9. Liveness over histories. For every configuration (max checks: a Go uint; tree size n >= 1; F; roles), EVERY
+      previous outcome whatsoever (any type value, any counters, any left-over intervals) and every list of rounds in
+      which each round offers round_live (same-view honest quorum where the state needs one, messages of k pending,
+      selected intervals readable): once (max+2)+2 rounds that are not RMN-retry rounds have happened, there has been
+      a selecting round r1 in which the quorum's view of k was (next = off, latest = on), off <= on, followed — with
+      only RMN-retry rounds in between — by a round r2 whose outcome is of type "report generated" and contains a root
+      of chain k over [off, min(on, off+n-1)]; r2 is at most the (max+2)+2-th non-retry round.
+      The destination cursor may move between selecting rounds (an earlier report landed): off is the view of the
+      selecting round that led to the report. RMN-retry rounds are not bounded (C03: they change nothing). *)
+Theorem C04_liveness : forall cfg_of F dest roles known k f fd (readable : N -> N -> Prop) max n prev rs,
+  u64 max -> (1 <= n)%N -> (0 <= F < 2^63)%Z -> (f < 2^63)%Z -> (fd < 2^63)%Z ->
+  hist_all cfg_of F dest max n (round_live F dest roles known k f fd readable n) prev rs ->
+  (max + 2 + 2 <= CommitSMP.eff_count max n prev (sys_rounds cfg_of F dest rs))%N ->
+  exists pre r1 mid r2 post off on a rt,
+    rs = pre ++ r1 :: mid ++ r2 :: post /\
+    (CommitSMP.eff_count max n prev (sys_rounds cfg_of F dest (pre ++ r1 :: mid ++ [r2])) <= max + 2 + 2)%N /\
+    CommitSM.next_state (CommitSM.o_type (sys_run cfg_of F dest max n prev pre)) = CommitSM.Selecting /\
+    same_view offramp_kv (snd r1) k fd off /\ same_view onramp_kv (snd r1) k f on /\ (off <= on)%N /\
+    readable off (N.min on (off + n - 1)) /\
+    let o := sys_run cfg_of F dest max n prev (pre ++ r1 :: mid ++ [r2]) in
+    CommitSM.o_type o = CommitSM.T_generated /\
+    In (k, (off, N.min on (off + n - 1)), a, rt) (CommitSM.o_roots o).
+Proof. exact liveness. Qed.
+Print Assumptions C04_liveness.
+
+(* ... and with "nothing lands meanwhile" spelled out (in every selecting round the quorum's view of k's destination
+   cursor is the same number off0): the report starts exactly at off0 *)
+Theorem C04_liveness_fixed_cursor : forall cfg_of F dest roles known k f fd (readable : N -> N -> Prop) max n off0 prev rs,
+  u64 max -> (1 <= n)%N -> (0 <= F < 2^63)%Z -> (f < 2^63)%Z -> (fd < 2^63)%Z ->
+  hist_all cfg_of F dest max n
+           (round_live F dest roles known k f fd (fun s e => s = off0 /\ readable s e) n) prev rs ->
+  (max + 2 + 2 <= CommitSMP.eff_count max n prev (sys_rounds cfg_of F dest rs))%N ->
+  exists pre r1 mid r2 post on a rt,
+    rs = pre ++ r1 :: mid ++ r2 :: post /\
+    (CommitSMP.eff_count max n prev (sys_rounds cfg_of F dest (pre ++ r1 :: mid ++ [r2])) <= max + 2 + 2)%N /\
+    same_view onramp_kv (snd r1) k f on /\ (off0 <= on)%N /\
+    let o := sys_run cfg_of F dest max n prev (pre ++ r1 :: mid ++ [r2]) in
+    CommitSM.o_type o = CommitSM.T_generated /\
+    In (k, (off0, N.min on (off0 + n - 1)), a, rt) (CommitSM.o_roots o).
+Proof. exact liveness_fixed_cursor. Qed.
+Print Assumptions C04_liveness_fixed_cursor.
+
+(* 10. ... and the root in that report is the true one: if in the non-retry building rounds the oracles outside a set
+       of at most f are honest root observers (the hypothesis of 5.), it is the merkle root of chain k's true messages
+       over [off, min(on, off+n-1)]. *)
+Theorem C04_liveness_true_root : forall h zero log cfg_of F dest roles known k f fd (readable : N -> N -> Prop) max n prev rs,
+  u64 max -> (1 <= n)%N -> (0 <= F < 2^63)%Z -> (f < 2^63)%Z -> (fd < 2^63)%Z ->
+  hist_all cfg_of F dest max n (round_live F dest roles known k f fd readable n) prev rs ->
+  hist_all cfg_of F dest max n (honest_round h zero log f) prev rs ->
+  (max + 2 + 2 <= CommitSMP.eff_count max n prev (sys_rounds cfg_of F dest rs))%N ->
+  exists pre r1 mid r2 post off on a rt,
+    rs = pre ++ r1 :: mid ++ r2 :: post /\
+    (CommitSMP.eff_count max n prev (sys_rounds cfg_of F dest (pre ++ r1 :: mid ++ [r2])) <= max + 2 + 2)%N /\
+    same_view offramp_kv (snd r1) k fd off /\ same_view onramp_kv (snd r1) k f on /\ (off <= on)%N /\
+    let o := sys_run cfg_of F dest max n prev (pre ++ r1 :: mid ++ [r2]) in
+    CommitSM.o_type o = CommitSM.T_generated /\
+    In (k, (off, N.min on (off + n - 1)), a, rt) (CommitSM.o_roots o) /\
+    true_root h zero log k off (N.min on (off + n - 1)) rt.
+Proof. exact liveness_true_root. Qed.
+Print Assumptions C04_liveness_true_root.
+
+(* 11. Non-vacuity and tightness. A concrete history (4 oracles, F = 1, oracle 3 Byzantine in every round; a left-over
+       building state, a report for another chain, a failed transmission check, selection, an RMN-retry round, the
+       report) meets every hypothesis of 9. with max = 0 and has exactly (0+2)+2 non-retry rounds; the report with the
+       root of chain 1 over [10,12] is the outcome of the last of them and no earlier outcome has it: the bound is
+       reached. (Proofs/CommitLiveP.v also has the same with max = 3 — reached at max+3 — and with an RMN bundle.) *)
+Theorem C04_liveness_nonvacuous :
+  (u64 0 /\ (1 <= 256)%N /\
+   hist_all lx_cfg 1 9 0 256 (round_live 1 9 lx_roles lx_known 1 1 1 (fun _ _ => True) 256) lx_prev lx_hist /\
+   CommitSMP.eff_count 0 256 lx_prev (sys_rounds lx_cfg 1 9 lx_hist) = (0 + 2 + 2)%N) /\
+  (let out := fun rs => sys_run lx_cfg 1 9 0 256 lx_prev rs in
+   (CommitSM.o_type (out lx_hist) = CommitSM.T_generated /\
+    CommitSM.o_roots (out lx_hist) = [(1, (10, 12), 7, 300)%N]) /\
+   map (fun j => (CommitSM.o_type (out (firstn j lx_hist)), CommitSM.o_roots (out (firstn j lx_hist)))) [1; 2; 3; 4]%nat =
+   [ (CommitSM.T_generated, [(2, (5, 6), 7, 200)%N]); (CommitSM.T_failed, []);
+     (CommitSM.T_selected, []); (CommitSM.T_selected, []) ] /\
+   CommitSM.o_ranges (out [lx_A; lx_B; lx_C]) = [(1, (10, 12))%N]).
+Proof. exact (conj ex_liveness_hyps ex_liveness_tight). Qed.
+Print Assumptions C04_liveness_nonvacuous.
+
+(* 12. F26, the liveness face (the safety face is C01_offramp_key_f_unfixed_refuted): BEFORE fixes/F26.patch the
+       statement 9. was false. Off-ramp next numbers are destination data — only designated readers of the destination
+       report them (C01_designated) — but getConsensusObservation thresholded the entry of source chain k at 2*f_k+1.
+       Witness, replayed on the pre-repair getConsensusObservation + reportRangesOutcome (fixes/F26_replay_test.go):
+       7 oracles, F = 2, all honest with identical views; destination 9: f = 1, readers 0..3; source 1: f = 2, readers
+       0..6; messages 10..12 of chain 1 pending; every destination reader reports next = 10 (4 votes < 5). The selecting
+       round meets the hypothesis of 9. (round_live) and the repaired processor selects [10, min(12, 10+n-1)]; with the
+       pre-repair consensus the agreed off-ramp map never contains chain 1: from every outcome in the selecting state,
+       over the history (selecting round, building round) repeated any number of times, no outcome is a generated
+       report or carries a root. *)
+Theorem C04_liveness_unfixed_refuted :
+  exists F dest roles known k fk fd rsel rbuild hist,
+    (0 <= F < 2^63)%Z /\ (fk < 2^63)%Z /\ (fd < 2^63)%Z /\
+    (forall m, hist (S m) = rsel :: rbuild :: hist m) /\ hist O = [] /\
+    valid_input false roles known dest (snd rsel) /\ valid_input false roles known dest (snd rbuild) /\
+    wire_u64 (snd rsel) /\ fchain_view F dest k fk fd (snd rsel) /\ fchain_view F dest k fk fd (snd rbuild) /\
+    same_view onramp_kv (snd rsel) k fk 12%N /\ same_view offramp_kv (snd rsel) k fd 10%N /\
+    (forall o, designated roles dest o -> reported offramp_kv (snd rsel) o k 10%N) /\
+    (forall o v, reported offramp_kv (snd rsel) o k v -> v = 10%N) /\ (10 <= 12)%N /\
+    (forall max n prev,
+       CommitSM.next_state (CommitSM.o_type prev) = CommitSM.Selecting -> (1 <= n)%N ->
+       round_live F dest roles known k fk fd (fun _ _ => True) n prev rsel /\
+       In (k, (10, N.min 12 (10 + n - 1)))%N (CommitSM.o_ranges (sys_step lx_cfg F dest max n prev rsel))) /\
+    forall max n prev m j,
+      CommitSM.next_state (CommitSM.o_type prev) = CommitSM.Selecting ->
+      let o := sys_run_unfixed lx_cfg F dest max n prev (firstn j (hist m)) in
+      o = prev \/ (CommitSM.o_roots o = [] /\ CommitSM.o_type o <> CommitSM.T_generated).
+Proof. exact liveness_unfixed_refuted. Qed.
+Print Assumptions C04_liveness_unfixed_refuted.
